@@ -20,7 +20,7 @@ enum Op {
 
 // "huffman": a selector the compressor refuses (compression::compress answers Err for Huffman) — an addition that *fails after the lookup*;
 // the statement's "an operation that reports failure leaves the map unchanged" needs failing operations other than FileExists / not-found
-const OPTS: &[&str] = &["zlib", "none", "bzip2", "zlib+enc", "none+fixkey", "huffman"];
+const OPTS: &[&str] = &["zlib", "none", "bzip2", "zlib+enc", "none+fixkey", "huffman", "lzma", "sparse", "zlib+enc+fixkey", "bzip2+enc", "zlib@path"];
 const SIZES: &[usize] = &[0, 5, 700, 40000];
 
 fn norm(n: &str) -> String {
@@ -35,6 +35,11 @@ fn opt_to_options(opt: usize, replace: bool) -> AddFileOptions {
         2 => o.compression(CompressionMethod::BZip2),
         3 => o.compression(CompressionMethod::Zlib).encrypt(),
         5 => o.compression(CompressionMethod::Huffman),
+        6 => o.compression(CompressionMethod::Lzma),
+        7 => o.compression(CompressionMethod::Sparse),
+        8 => o.compression(CompressionMethod::Zlib).encrypt().fix_key(),
+        9 => o.compression(CompressionMethod::BZip2).encrypt(),
+        10 => o.compression(CompressionMethod::Zlib), // the bytes come from a file on disk (MutableArchive::add_file)
         _ => o.compression(CompressionMethod::None).fix_key(),
     }
 }
@@ -428,7 +433,19 @@ fn run_history(c: &mut Case, st: &Start, ops: &[Op], names: &[String], dir: &Pat
                 uid += 1;
                 let data = blob(uid, SIZES[*size]);
                 let n = names[*name].clone();
-                let r = trap(|| m.add_file_data(&data, &n, opt_to_options(*opt, *replace)));
+                let r = if OPTS[*opt].ends_with("@path") {
+                    let src = dir.join(format!("src-{uid}.bin"));
+                    if std::fs::write(&src, &data).is_err() {
+                        c.inconclusive("could not write a source file into the scratch directory");
+                        return;
+                    }
+                    c.count("adds_from_path", 1);
+                    let r = trap(|| m.add_file(&src, &n, opt_to_options(*opt, *replace)));
+                    let _ = std::fs::remove_file(&src);
+                    r
+                } else {
+                    trap(|| m.add_file_data(&data, &n, opt_to_options(*opt, *replace)))
+                };
                 if let Ok(Ok(())) = &r {
                     let key = norm(&n);
                     let existed = model.contains_key(&key);
